@@ -31,7 +31,18 @@ CLAIMED["C20"] = dict(
     note="Trusts: the heap seam sees every allocation of library objects (objcopy symbol redirection of malloc/calloc/realloc/posix_memalign/free); "
          "requests made by libpng/zlib/libc on the library's behalf are outside the seam; ASan/UBSan report what happens after the failed request.")
 
-NOT_BUILT = {p: "not claimed at this commit: the simulation engine for this property is still under construction (see DESIGN.md section 11)" for p in ["C10", "C11", "C12", "C14", "C15", "C16", "C18"]}
+CLAIMED["C18"] = dict(
+    engine="fs", level="fault_enumeration", design_ref="DESIGN.md section 3, C18",
+    technique="deterministic simulation with fault injection: simulated file system (fopencookie) and clock under the real readers/writers, libpng and zlib; torn files at every offset, bit flips, EIO, short reads, ENOSPC, open/close failures, foreign writers; fates judged against an admissible set and a reference JCF reader",
+    text="Fault-free plane: write/read round trips for every compression level and comment kind (with and without 1..7-byte short reads) must return an equal matrix; "
+         "JCF and string constructors are compared with reference readers. Fault planes, one forked execution under ASan/UBSan each: every truncation offset of files produced by the "
+         "real writer, single-bit flips (complete for small files), EIO at seeded offsets, PNGs of every valid bit depth x colour type x interlacing written by libpng directly, "
+         "every listed JCF corruption, torn JCF text, and write-side faults. Admissible: NULL, termination by libpng/m4ri_die, or a matrix equal to the reference; never a sanitizer report, "
+         "a signal, a differing matrix, dirty padding or an accepted unsupported/malformed file.",
+    note="Trusts ASan/UBSan to expose accesses outside allocated buffers; libpng/zlib internals are real but their own allocations are outside the ledger; "
+         "the reference JCF reader is 30 lines written from the format description in io.h.")
+
+NOT_BUILT = {p: "not claimed at this commit: the simulation engine for this property is still under construction (see DESIGN.md section 11)" for p in ["C10", "C11", "C12", "C14", "C15", "C16"]}
 
 
 def main():
@@ -57,6 +68,7 @@ def main():
                    baseline_off_cmd="cd /repo && make check", source_commits=[], add_only=True),
         engines=[
             dict(name="oom", path="sim/eng/oom.c", serves_properties=["C20"], kind_free_text="allocation-failure enumeration in forked children over the simulated heap"),
+            dict(name="fs", path="sim/eng/fs.c", serves_properties=["C18"], kind_free_text="simulated file system and clock under the real PNG/JCF readers and writers; fault enumeration in forked children"),
         ],
         checks=checks,
         not_applicable=na,
